@@ -58,6 +58,14 @@ theorem filterMap_eq_map_of_forall {f : α → Option β} {g : α → β} {l : L
     rw [List.filterMap_cons, h x (List.mem_cons_self ..), List.map_cons, ih]
     intro y hy; exact h y (List.mem_cons_of_mem _ hy)
 
+theorem filterMap_congr' {f g : α → Option β} {l : List α} (h : ∀ x ∈ l, f x = g x) :
+    l.filterMap f = l.filterMap g := by
+  induction l with
+  | nil => rfl
+  | cons x xs ih =>
+    rw [List.filterMap_cons, List.filterMap_cons, h x (List.mem_cons_self ..), ih]
+    intro y hy; exact h y (List.mem_cons_of_mem _ hy)
+
 theorem zipIdx_fst_mem {l : List α} {x : α} {i n : Nat} (h : (x, i) ∈ l.zipIdx n) : x ∈ l := by
   induction l generalizing n with
   | nil => simp at h
